@@ -8,6 +8,8 @@ CONSTANTS
   Shifts = {0}
   Mods = {"all", "first"}
   Probs = {"P1", "P2", "P4"}
+  Pads = {0}
+  Padfs = {0}
 VIEW view
 INVARIANTS Inv_Covered Inv_NoTwin Inv_StaleGone Inv_Foreign Inv_Idempotent Inv_Converges Inv_Accounting Inv_FoldAgrees
 CHECK_DEADLOCK FALSE
